@@ -191,6 +191,9 @@ def run(ctx):
     # ---------------------------------------------------------------- C10.3
     cluster.check_guards(ctx, "C10.3", prog)
     cluster.check_pushpop(ctx, "C10.3", prog)
+    # ... and what those guards consult: the stack of questions in flight, its limit and its duplicate test
+    from . import C08
+    C08.context_rules(ctx, "C10.3", prog)
 
     # ---------------------------------------------------------------- C10.4
     fc = prog.fn(REC + "follow_cnames")
